@@ -19,7 +19,7 @@ from engine.common.core import Obligation, Cover, mval
 from engine.pyvc.values import *
 from engine.pyvc import models
 from engine.pyvc.loops import LoopSpec
-from engine.pyvc.harness import toolkit, raw, where, new_engine, run_paths, path_obligations, register_fn, note_engine, qualname
+from engine.pyvc.harness import toolkit, raw, where, new_engine, run_paths, path_obligations, register_fn, note_engine, qualname, exc_note, sect
 from contracts.py import msgs, trx as T
 from contracts.py.common import snapshot, attr
 from spec import valid_msg as V
@@ -130,9 +130,9 @@ def hdm_summary(E, func, args, kwargs):
 
 def build(run, prop=ID):
     E = new_engine()
-    build_freq(run, prop, E)
-    build_forward(run, prop, E)
-    build_clck_handler(run, prop, E)
+    sect(run, build_freq, run, prop, E)
+    sect(run, build_forward, run, prop, E)
+    sect(run, build_clck_handler, run, prop, E)
     note_engine(run, E)
     run.assume("transceivers compare by identity (no __eq__ defined: checked on the live classes); trx_list members are pairwise distinct (TRXList.add_trx)")
     run.assume("handle_data_msg's frame: the recipient's burst_drop_amount and the datagram log (its own contract: C10/C18)")
@@ -164,7 +164,7 @@ def build_freq(run, prop, E):
             for p, ctx, out in run_paths(E, setup, lambda E, ctx, f=f: E.call(f, [ctx["self"], SInt(z3.Int("fn"))])):
                 tag = {"what": name}
                 if out[0] == "raise":
-                    run.add(Obligation(prop, qualname(f), "never_raises", p.pc, z3.BoolVal(False), kind="noexc", case=cs + "," + out[1].cls.__name__, where=where(f), tag=tag))
+                    run.add(Obligation(prop, qualname(f), "never_raises", p.pc, z3.BoolVal(False), kind="noexc", note=exc_note(out[1]), case=cs + "," + out[1].cls.__name__, where=where(f), tag=tag))
                     continue
                 r = out[1]
                 t = ctx["self"]
@@ -236,7 +236,7 @@ def build_forward(run, prop, E):
         run.add(*path_obligations(run, prop, f, p, ""))
         tag = {"what": "forward"}
         if out[0] == "raise":
-            run.add(Obligation(prop, qualname(f), "never_raises", p.pc, z3.BoolVal(False), kind="noexc", case=out[1].cls.__name__, where=where(f), tag=tag))
+            run.add(Obligation(prop, qualname(f), "never_raises", p.pc, z3.BoolVal(False), kind="noexc", note=exc_note(out[1]), case=out[1].cls.__name__, where=where(f), tag=tag))
             continue
         # every handle_data_msg call of this path (one loop iteration at most): arguments per contract
         for (ref, src, rx_msg, m) in p.ghost.get("hd_calls", []):
@@ -304,7 +304,7 @@ def build_clck_handler(run, prop, E):
         run.add(*path_obligations(run, prop, f, p, ""))
         tag = {"what": "clck_handler"}
         if out[0] == "raise":
-            run.add(Obligation(prop, qualname(f), "never_raises", p.pc, z3.BoolVal(False), kind="noexc", case=out[1].cls.__name__, where=where(f), tag=tag))
+            run.add(Obligation(prop, qualname(f), "never_raises", p.pc, z3.BoolVal(False), kind="noexc", note=exc_note(out[1]), case=out[1].cls.__name__, where=where(f), tag=tag))
             continue
         for (ref, fwd, fn) in p.ghost.get("ticks", []):
             run.add(Obligation(prop, qualname(f), "tick_passes_forwarder_and_fn", p.pc,
@@ -366,4 +366,29 @@ def replay(payload):
         got = sum(1 for c in calls if c is t)
         if got != exp * lst.count(t):
             bad.append((t.name, got, exp))
-    return {"confirmed": bool(bad), "observed": bad or "copies match deliver set", "expected": "one copy per member of the deliver set"}
+    if bad:
+        return {"confirmed": True, "observed": bad, "expected": "one copy per member of the deliver set"}
+    # second scenario (searches beyond the verifier's input): the real recipients' handle_data_msg, an earlier recipient that consumes its
+    # copy (rf-muted, header version 1 -> turns it into a NOPE indication) followed by a normal one: every recipient must get an intact copy
+    for muted_first in (True, False):
+        src = native_trx("S", 6700)
+        src.running, src._tx_freq, src._rx_freq = True, 7, 1
+        rcp = []
+        for k in range(2):
+            t = native_trx("R%d" % k, 6710 + 10 * k)
+            t.running, t._rx_freq, t._tx_freq = True, 7, 1
+            t.data_if._hdr_ver = 1
+            sent = []
+            t.data_if.send_msg = (lambda msg, legacy=False, sent=sent: sent.append((msg.nope_ind, None if msg.burst is None else len(msg.burst))))
+            t._sent = sent
+            rcp.append(t)
+        (rcp[0] if muted_first else rcp[1]).rf_muted = True
+        m = dm.TxMsg(fn=f["fn"], tn=0)
+        m.pwr, m.burst = 0, bytearray(148)
+        bf.BurstForwarder([src] + rcp).forward_msg(src, m)
+        want = [[(True, None)], [(False, 148)]] if muted_first else [[(False, 148)], [(True, None)]]
+        got = [t._sent for t in rcp]
+        if got != want:
+            return {"confirmed": True, "observed": {"first recipient muted": muted_first, "emitted (nope, burst length) per recipient": got},
+                    "expected": {"emitted": want}, "note": "scenario added by the replay: two recipients on the sender's frequency, one of them muted"}
+    return {"confirmed": False, "observed": "copies match deliver set; every recipient gets its own intact copy", "expected": "one copy per member of the deliver set"}
